@@ -275,7 +275,10 @@ def synthetic(ctx):
 
 
 TYPED = {b'mdhd': 0, b'mvhd': 1, b'tkhd': 2, b'mehd': 3, b'tfdt': 4, b'mfhd': 5, b'trex': 6, b'tfhd': 7, b'trun': 8, b'saio': 9, b'tenc': 10,
-         b'pssh': 11, b'sidx': 12, b'saiz': 13}
+         b'pssh': 11, b'sidx': 12, b'saiz': 13, b'btrt': 14, b'pasp': 15, b'frma': 16, b'schm': 17, b'senc': 18}
+PLAIN = {b'btrt', b'pasp', b'frma'}          # not full boxes: no version / flags word
+VISUAL = {b'avc1', b'avc3', b'hev1', b'hvc1', b'encv'}
+AUDIO = {b'mp4a', b'enca', b'ec-3', b'ac-3'}
 # index into the model's value list -> library attribute (numeric fields only; times are datetimes in the library)
 FIELD_MAP = {
     b'mdhd': {0: 'version', 4: 'timescale', 5: 'duration'},
@@ -291,14 +294,86 @@ FIELD_MAP = {
     b'pssh': {0: 'version'},
     b'sidx': {0: 'version', 2: 'reference_id', 3: 'timescale', 4: 'earliest_presentation_time', 5: 'first_offset'},
     b'saiz': {1: 'flags'},
+    b'btrt': {0: 'bufferSizeDB', 1: 'maxBitrate', 2: 'avgBitrate'},
+    b'pasp': {0: 'h_spacing', 1: 'v_spacing'},
+    b'schm': {3: 'scheme_version'},
 }
+
+
+def sample_entry_children(stsd):
+    """the boxes inside the sample entries of an stsd box (the walker does not descend there): each entry is a box
+    whose body starts with 78 (visual) or 28 (audio) bytes of fixed fields followed by child boxes"""
+    out = []
+    body_at = stsd.payload_start + 8
+    try:
+        entries = boxwalk.parse(stsd.raw, stsd.payload_start - stsd.start + 8, None, stsd.start)
+    except ValueError:
+        return out
+    for e in entries:
+        skip = 78 if e.type in VISUAL else 28 if e.type in AUDIO else None
+        if skip is None:
+            continue
+        try:
+            kids = boxwalk.parse(e.raw, e.hdr + skip, None, e.start)
+        except ValueError:
+            continue
+        stack = list(kids)
+        while stack:
+            b = stack.pop()
+            out.append(b)
+            stack.extend(b.children)
+    assert body_at
+    return out
+
+
+def senc_params(b, parent, iv):
+    """(iv size, per-sample subsample counts; -1 = the saiz size leaves no room for a count) from the bytes of the senc box
+    and the sizes its sibling saiz lists; None when it cannot be determined independently"""
+    payload = b.payload
+    flags = int.from_bytes(payload[1:4], 'big')
+    pos = 4
+    if flags & 1:
+        iv = payload[pos + 3] or 8
+        pos += 20
+    if iv is None or parent is None:
+        return None
+    n = int.from_bytes(payload[pos:pos + 4], 'big')
+    pos += 4
+    saiz = [c for c in parent.children if c.type == b'saiz']
+    if not saiz:
+        return None
+    sp = saiz[0].payload
+    sflags = int.from_bytes(sp[1:4], 'big')
+    q = 4 + (8 if sflags & 1 else 0)
+    default, count = sp[q], int.from_bytes(sp[q + 1:q + 5], 'big')
+    sizes = [default] * n if default else list(sp[q + 5:q + 5 + count])
+    if len(sizes) < n or n > 500:
+        return None
+    counts = []
+    for size in sizes[:n]:
+        if size == 0:
+            return None                      # the library skips such a sample; not a layout the model lists
+        if flags & 2 and size >= iv + 2:
+            k = int.from_bytes(payload[pos + iv:pos + iv + 2], 'big')
+            counts.append(k)
+            pos += iv + 2 + 6 * k
+        else:
+            counts.append(-1)
+            pos += iv if flags & 2 else size
+            if not flags & 2 and size != iv:
+                return None
+    return iv, counts
 
 
 def typed_params(typ, payload):
     """(version, flags, n1, n2) read straight from the bytes"""
     version, flags = payload[0], int.from_bytes(payload[1:4], 'big')
     n1 = n2 = 0
-    if typ == b'trun':
+    if typ in PLAIN:
+        return 0, 0, 0, 0
+    if typ == b'schm':
+        n1 = len(payload) - 12 if flags & 1 else 0
+    elif typ == b'trun':
         n1 = int.from_bytes(payload[4:8], 'big')
     elif typ == b'saio':
         pos = 4 + (8 if flags & 1 else 0)
@@ -338,17 +413,31 @@ def typed_corr(ctx, blobs):
             a = stack.pop()
             by_pos[a.position] = a
             stack.extend(a.children or [])
-        flat, stack = [], list(boxes)
+        flat, stack, parent_of = [], list(boxes), {}
         while stack:
             b = stack.pop()
             flat.append(b)
             stack.extend(b.children)
+            for c in b.children:
+                parent_of[id(c)] = b
+            if b.type == b'stsd':
+                flat.extend(sample_entry_children(b))
         for b in flat:
             if b.type not in TYPED or len(b.payload) < 4 or len(b.payload) > 4000:
                 continue
-            version, flags, n1, n2 = typed_params(b.type, b.payload)
+            extra = []
+            if b.type == b'senc':
+                sp = senc_params(b, parent_of.get(id(b)), iv_for(name) if ':' in name else 8)
+                if sp is None:
+                    ctx.dist('typed:senc-undetermined')
+                    continue
+                version, flags, n1, n2 = b.payload[0], int.from_bytes(b.payload[1:4], 'big'), sp[0], 0
+                extra = [sp[1]]
+            else:
+                version, flags, n1, n2 = typed_params(b.type, b.payload)
             if n1 > 500 or n2 > 4000:
                 continue
+            ctx.dist('typed:%s' % b.type.decode('latin-1'))
             atom = by_pos.get(b.start)
             fields = {}
             if atom is not None:
@@ -358,7 +447,12 @@ def typed_corr(ctx, blobs):
                         fields[idx] = int(v)
                     except Exception:  # noqa
                         pass
-            reqs.append([3, TYPED[b.type], version, flags, n1, n2, list(b.payload)])
+            if b.type == b'senc' and atom is not None:
+                try:
+                    fields[2 + (3 if flags & 1 else 0)] = len(atom.samples)
+                except Exception:  # noqa
+                    pass
+            reqs.append([3, TYPED[b.type], version, flags, n1, n2, list(b.payload)] + extra)
             meta.append(({'blob': name, 'box': b.type.decode(), 'at': b.start, 'version': version, 'flags': flags}, list(b.payload), fields))
     res = common.run_model_parallel(4, reqs)
     ok = True
